@@ -37,6 +37,7 @@ type c16Info struct {
 }
 
 func runC16(c c16Case) (*vstat.Failure, c16Info) {
+	vstat.Begin(c)
 	var info c16Info
 	f := vstat.Catch(func() *vstat.Failure { return runC16x(c, &info) })
 	return f, info
@@ -177,6 +178,13 @@ func runC16x(c c16Case, info *c16Info) *vstat.Failure {
 			must(err)
 			f.Close()
 			endGeneration()
+			if st.N%2 == 1 {
+				// the writer reopens the path and logs at once: the new generation
+				// already has content when the tailer looks
+				seq++
+				appendData(fmt.Sprintf("L%d\nL%d\n", seq, seq+1))
+				seq++
+			}
 		case "delete":
 			must(os.Remove(path))
 			exists = false
